@@ -194,6 +194,11 @@ func monExclusive(w *World) {
 					"%s: with no relay fault at all and before either application had begun to close connection #%d, a call on it failed: %s",
 					s.Side, s.Index, s.BrokenEarly)
 			}
+			if s.PrevClosing {
+				w.fail("second-connection-while-previous-closing/"+s.Side,
+					"%s: connection #%d was handed out at %v while the application's Close of connection #%d was still running (no relay fault at all)",
+					s.Side, s.Index, s.At, s.Index-1)
+			}
 			if s.PrevInUse {
 				w.fail("second-connection-while-previous-in-use/"+s.Side,
 					"%s: connection #%d was handed out at %v although, with no relay fault at all, neither application had begun to close connection #%d: it was taken away from under its users",
